@@ -838,6 +838,8 @@ def _pbkdf_source(ctx):
 
 def check_C14(ctx):
     ctx.build(); _pbkdf_source(ctx); ctx.lean(extra_modules=['TJ.Props.C14Gen'])
+    # the largest count of the quick tier is 300: an operation that has not answered within three minutes is a hang (e.g. `count == 0` wrapping to 2^64 rounds)
+    if ctx.tier == 'quick': ctx.impl_timeout = 180
     ctx.equality_streams.update({'pbkdf2': 'TJ.Props.C14.pbkdf2_rfc8018', 'pbkdf2-prefix': 'TJ.Props.C14.pbkdf2_rfc8018'})
     g = ctx.g; cases = []
     counts = [0, 1, 2, 3, 4, 5, 7, 10, 33, 64] + ([300] if ctx.tier == 'quick' else [300, 1000, 4096])
